@@ -10,7 +10,7 @@ PER_FILE = 500
 CASE_TIMEOUT = 10
 RULE = ('case = one rectangular float table (0-10 rows, 1-3 columns, distinct integer values, NaN pattern), an index kind '
         '(default RangeIndex or gapped dates), a method or method list and a limit; the SAME data is passed to df_fillna / nona as '
-        'Series, DataFrame, 1-d and 2-d ndarray and each result (kind, index labels, every cell) plus the argument re-inspected '
+        'Series, DataFrame, 1-d and 2-d ndarray (cells: finite integer-valued floats, NaN, +inf and -inf: all-inf rows, inf+NaN rows, inf next to NaN runs) and each result (kind, index labels, every cell) plus the argument re-inspected '
         'after the call is compared inside Coq with M_fill.fill / nona_f. Single methods x limit {None,1,2,3} are exhaustive over all '
         'NaN patterns of length 0..6; method pairs / triples, multi-column frames (all-NaN rows and columns forced), lengths 7..10 '
         'and nona(value, edge) are sampled (pairs exhaustive to length 6 in the thorough tier). Oracle, from the property text: '
@@ -24,7 +24,7 @@ EXPLANATION = ('theorems C12_* (coq/props/C12.v) hold for vectors and frames of 
 TRUSTED = ['modelled, not verified: pandas 3.0 ffill / bfill / fillna(value, limit) / boolean row selection / concat(axis=1) / '
            'last_valid_index and numpy isnan (compared with the model on every case of every run)',
            'harness/props/c12.py rendering of inputs and observations']
-ASSUMPTIONS = ['cells are float64 (generated integer-valued so that values are carried exactly)', 'limit is None or >= 1; axis = 0',
+ASSUMPTIONS = ['cells are float64: NaN, +-inf or finite (generated integer-valued so that values are carried exactly); nona(value=inf) (np.isinf mask) is not exercised', 'limit is None or >= 1; axis = 0',
                'frames have at least one column; index labels strictly increasing (RangeIndex or dates)',
                'methods: ffill, bfill/backfill, a number, nona, fnna, ffill_na, ffill_0 (interpolation methods, a date as method and '
                "'pad' - which pandas 3 rejects - are outside the property)"]
@@ -39,14 +39,17 @@ def coq_runner(case):
     return 'run_nona' if case['kind'] == 'nona' else 'run_fill'
 
 def _cell(c):
-    return 'None' if c is None else 'Some (%d)' % c
+    if c is None: return 'None'
+    if c == 'inf': return 'Some PInf'
+    if c == '-inf': return 'Some NInf'
+    return 'Some (Fin (%d))' % c
 def _lf(case):
     return '[' + '; '.join('((%d), [%s])' % (l, '; '.join(_cell(c) for c in r)) for l, r in zip(case['labels'], case['rows'])) + ']'
 def forms_of(case):
     return ['S', 'D', 'A1', 'A2'] if case['k'] == 1 else ['D', 'A2']
 _METH = {'ffill': 'MFfill', 'bfill': 'MBfill', 'backfill': 'MBfill', 'nona': 'MNona', 'fnna': 'MFnna', 'ffill_na': 'MFfillNa', 'ffill_0': 'MFfill0'}
 def _meth(m):
-    return '(MConst (%d))' % m[1] if isinstance(m, list) else _METH[m]
+    return '(MConst (Fin (%d)))' % m[1] if isinstance(m, list) else _METH[m]
 def coq_case(case):
     forms = '[' + '; '.join('F' + f for f in forms_of(case)) + ']'
     if case['kind'] == 'nona':
@@ -82,6 +85,8 @@ def canon_cell(v):
     v = float(v)
     if math.isnan(v):
         return 'NaN'
+    if math.isinf(v):
+        return 'inf' if v > 0 else '-inf'
     return int(v) if v == int(v) and abs(v) < 2 ** 53 else 'x' + v.hex()
 
 def canon_label(l):
@@ -331,10 +336,20 @@ def mk(rows, k, idx, rng=None, **kw):
 def vec_rows(mask):
     return [[None if b else 10 + i] for i, b in enumerate(mask)]
 
+INFS = ['inf', '-inf']
+def tern_rows(pat):
+    """one column from a pattern over N (NaN), V (finite value), P / M (+inf / -inf)"""
+    return [[{'N': None, 'P': 'inf', 'M': '-inf'}.get(c, 10 + i)] for i, c in enumerate(pat)]
+
 def rand_rows(rng, n, k):
     style = rng.random()
     p = rng.choice([0.2, 0.5, 0.8])
-    rows = [[None if rng.random() < p else 10 + i * k + j for j in range(k)] for i in range(n)]
+    q = rng.choice([0.0, 0.15, 0.4])             # share of +-inf among the non-NaN cells
+    rows = [[None if rng.random() < p else (rng.choice(INFS) if rng.random() < q else 10 + i * k + j) for j in range(k)] for i in range(n)]
+    if q and n:
+        for _ in range(rng.randrange(0, 3)):      # rows that are all inf, or inf mixed with NaN only
+            i = rng.randrange(n)
+            rows[i] = [rng.choice(INFS) if (rng.random() < 0.6 or j == 0) else None for j in range(k)]
     if style < 0.5 and n:
         for _ in range(rng.randrange(0, 3)):      # runs of all-NaN rows: leading, trailing, interior
             a = rng.choice([0, 0, rng.randrange(n), n - 1]); b = min(n, a + rng.randrange(1, 4))
@@ -360,6 +375,15 @@ def gen_cases(rng, tier):
                 for lim in LIMITS:
                     t += 1
                     cases.append(mk(vec_rows(mask), 1, 'date' if t % 3 == 0 else 'range', kind='fill', methods=[m], limit=lim, mlist=(t % 5 == 0)))
+    # A2. +-inf are non-NaN cells: every pattern over {NaN, finite, +inf, -inf} of length 0..4 (0..5 thorough)
+    for n in range(0, 5 if quick else 6):
+        for pat in itertools.product('NVPM', repeat=n):
+            if 'P' not in pat and 'M' not in pat:
+                continue
+            for m in SINGLES:
+                for lim in (LIMITS if (not quick or n <= 3) else [None, 1]):
+                    t += 1
+                    cases.append(mk(tern_rows(pat), 1, 'date' if t % 3 == 0 else 'range', kind='fill', methods=[m], limit=lim, mlist=(t % 5 == 0)))
     # B. method lists
     if quick:
         for _ in range(1800):
@@ -390,12 +414,28 @@ def gen_cases(rng, tier):
             for e in (None, 1, -1):
                 t += 1
                 cases.append(mk(vec_rows(mask), 1, 'date' if t % 2 else 'range', kind='nona', value=None, edge=e))
+    for n in range(0, 5):                         # nona on every pattern with infinite cells
+        for pat in itertools.product('NVPM', repeat=n):
+            if 'P' in pat or 'M' in pat:
+                for e in (None, 1, -1):
+                    t += 1
+                    cases.append(mk(tern_rows(pat), 1, 'date' if t % 2 else 'range', kind='nona', value=None, edge=e))
+    for _ in range(300 if quick else 5000):       # frames whose rows are all-inf / inf+NaN / all-NaN / mixed
+        k = rng.choice([1, 2, 3]); n = rng.randrange(0, 8)
+        rows = []
+        for i in range(n):
+            r = rng.random()
+            if r < 0.25: rows.append([None] * k)
+            elif r < 0.45: rows.append([rng.choice(INFS) for _ in range(k)])
+            elif r < 0.7: rows.append([rng.choice(INFS + [None]) for _ in range(k)])
+            else: rows.append([rng.choice([None, 10 + i, 'inf', '-inf', 0]) for _ in range(k)])
+        cases.append(mk(rows, k, rng.choice(['range', 'date']), rng, kind='nona', value=rng.choice([None, None, None, 0]), edge=rng.choice([None, 1, -1])))
     for _ in range(500 if quick else 8000):
         k = rng.choice([1, 2, 3]); n = rng.randrange(0, 9)
         value = rng.choice([None, None, 0, 1])
         p = rng.choice([0.3, 0.6, 0.9])
         target = None if value is None else value
-        rows = [[target if rng.random() < p else rng.choice([None, 0, 1, 2]) for _ in range(k)] for _ in range(n)]
+        rows = [[target if rng.random() < p else rng.choice([None, 0, 1, 2, 'inf', '-inf']) for _ in range(k)] for _ in range(n)]
         cases.append(mk(rows, k, rng.choice(['range', 'date']), rng, kind='nona', value=value, edge=rng.choice([None, 1, -1])))
     return cases
 
